@@ -3,7 +3,10 @@
 // Written from the property texts; no floats, no quadtree.
 package ref
 
-import "sort"
+import (
+	"math/bits"
+	"sort"
+)
 
 type P = [2]int64  // a point in integer units (lattice units or local fixed-point units)
 type PX = [2]int64 // a pixel index (column, row)
@@ -177,28 +180,57 @@ func mk(n, d int64) rat {
 	return rat{n, d}
 }
 
-// cmpRat compares using 128-bit products via big-free trick: values in the
-// scopes stay below 2^31 so int64 products are exact; guarded by a panic.
+// cmpRat compares two rationals (positive denominators) exactly: 128-bit products.
 func cmpRat(a, b rat) int {
-	l, r := mul(a.n, b.d), mul(b.n, a.d)
-	switch {
-	case l < r:
-		return -1
-	case l > r:
-		return 1
-	}
-	return 0
+	return cmp128(a.n, b.d, b.n, a.d)
 }
 
-func mul(a, b int64) int64 {
+// cmp128 compares a*b with c*d without overflow.
+func cmp128(a, b, c, d int64) int {
+	sl, hl, ll := mul128(a, b)
+	sr, hr, lr := mul128(c, d)
+	if sl != sr {
+		if sl < sr {
+			return -1
+		}
+		return 1
+	}
+	r := 0
+	switch {
+	case hl != hr:
+		if hl < hr {
+			r = -1
+		} else {
+			r = 1
+		}
+	case ll != lr:
+		if ll < lr {
+			r = -1
+		} else {
+			r = 1
+		}
+	}
+	if sl < 0 {
+		return -r
+	}
+	return r
+}
+
+// mul128: sign (-1, 0, 1) and magnitude (hi, lo) of a*b
+func mul128(a, b int64) (sign int, hi, lo uint64) {
 	if a == 0 || b == 0 {
-		return 0
+		return 0, 0, 0
 	}
-	c := a * b
-	if c/b != a {
-		panic("ref: int64 overflow in rational comparison")
+	sign = 1
+	ua, ub := uint64(a), uint64(b)
+	if a < 0 {
+		sign, ua = -sign, uint64(-a)
 	}
-	return c
+	if b < 0 {
+		sign, ub = -sign, uint64(-b)
+	}
+	hi, lo = bits.Mul64(ua, ub)
+	return
 }
 
 type Interval struct {
